@@ -211,6 +211,28 @@ def run_construct(uc, mult, tc, term, st=None, spell_cur='oo'):
             inv.term_currency is not r.unit_currency:
         return [('C09:inverted:currencies', f"({r!r}).inverted() = {inv!r}")]
     out = normal_form(inv, inv_true, f"({r!r}).inverted()", 'C09:inverted')
+    if not out:
+        # inverting the inverted rate: approximates the reciprocal of *that*
+        # rate (not necessarily the original one), and equal rates invert
+        # equally however they were made
+        uc3, M3, tc3, T3 = fields(inv)
+        try:
+            inv2 = inv.inverted()
+            out += normal_form(inv2, M3 / T3, f"({r!r}).inverted().inverted()",
+                               'C09:inverted-twice')
+            fresh = ExchangeRate(inv.unit_currency, M3, inv.term_currency,
+                                 T3).inverted()
+            if not (fresh == inv2):
+                out.append(('C09:inverted-twice:history',
+                            f"({inv!r}).inverted() = {inv2!r}, but an equal "
+                            f"freshly built rate inverts to {fresh!r}"))
+        except ValueError:
+            if M3 / T3 >= MIN_TERM:
+                out.append(('C09:inverted-twice:raises', f"({inv!r})"
+                            ".inverted() raised ValueError"))
+        if st is not None:
+            st.transitions += 2
+            st.evaluations += 2
     # string spelling of currencies gives the same rate
     if not out and st is not None and mval == 1:
         r2 = ExchangeRate(uc, mobj, tc, tobj)
